@@ -25,11 +25,11 @@ namespace Btc.Schnorr
 open Btc
 
 /-- exception classes of the modelled functions (`fuel`: the model's retry budget ran out) -/
-inductive Err | value | runtime | fuel
+inductive Err | value | runtime | fuel | type
   deriving DecidableEq, Repr, Inhabited
 
 def Err.name : Err → String
-  | .value => "value" | .runtime => "runtime" | .fuel => "fuel"
+  | .value => "value" | .runtime => "runtime" | .fuel => "fuel" | .type => "type"
 
 /-- what the scheme needs to know beside the group: byte sizes and the tagged hash -/
 structure Params where
@@ -257,6 +257,48 @@ def verifyCommit (fuel : Nat) (msg : Bytes) (xQ : Int) (sg : Sig) (commitHash : 
     match assertCommitment o prm fuel commitHash R sg with
     | .error _ => false
     | .ok _ => verify o prm msg xQ sg
+
+/-! ## the optional arguments of the public API: `None` is `none`, a present-but-empty value
+(`commit_hash = b""`) is `some []` and is a commitment like any other -/
+
+/-- `sign_(msg, q, aux, ec, hf, verify=False, commit_hash=…)`: a bare signature without a commitment,
+    signature and receipt with one -/
+def signOpt (fuel : Nat) (msg : Bytes) (q : Int) (aux : Bytes) (commitHash : Option Bytes) :
+    Except Err (Sig × Option α) :=
+  match commitHash with
+  | none =>
+    match sign o prm fuel msg q aux with
+    | .error e => .error e
+    | .ok sg => .ok (sg, none)
+  | some c =>
+    match signCommit o prm fuel msg q aux c with
+    | .error e => .error e
+    | .ok (sg, R) => .ok (sg, some R)
+
+/-- `verify_(msg, Q, sig, hf, commit_hash=…, receipt=…)`: what is no signature is `False`
+    (`Sig.assert_valid` runs first); then a commitment without its receipt, or a receipt without its
+    commitment, is the caller's TypeError; otherwise the verdict -/
+def verifyOpt (fuel : Nat) (msg : Bytes) (xQ : Int) (sg : Sig) (commitHash : Option Bytes)
+    (receipt : Option α) : Except Err Bool :=
+  match sigValid o sg with
+  | .error _ => .ok false
+  | .ok _ =>
+    match commitHash, receipt with
+    | none, none => .ok (verify o prm msg xQ sg)
+    | none, some _ => .error .type
+    | some _, none => .error .type
+    | some c, some R => .ok (verifyCommit o prm fuel msg xQ sg c R)
+
+/-- `sign(msg, q, aux, ec, hf, commit=…)`: message and commitment reduced by `hf` first
+    (`commit_hash = None if commit is None else reduce_to_hlen(commit, hf)`) -/
+def signHashed (H : Bytes → Bytes) (fuel : Nat) (msg : Bytes) (q : Int) (aux : Bytes)
+    (commit : Option Bytes) : Except Err (Sig × Option α) :=
+  signOpt o prm fuel (H msg) q aux (commit.map H)
+
+/-- `verify(msg, Q, sig, hf, commit=…, receipt=…)` -/
+def verifyHashed (H : Bytes → Bytes) (fuel : Nat) (msg : Bytes) (xQ : Int) (sg : Sig)
+    (commit : Option Bytes) (receipt : Option α) : Except Err Bool :=
+  verifyOpt o prm fuel (H msg) xQ sg (commit.map H) receipt
 
 end
 end Btc.Schnorr
